@@ -8,6 +8,7 @@ import pendulum
 from pendulum.duration import Duration
 from pendulum.parsing import _Interval
 from pendulum.parsing import parse as base_parse
+from pendulum.parsing.exceptions import ParserError
 from pendulum.tz.timezone import UTC
 
 
@@ -27,7 +28,11 @@ def parse(text: str, **options: t.Any) -> Date | Time | DateTime | Duration:
     # Use the mock now value if it exists
     options["now"] = options.get("now")
 
-    return _parse(text, **options)
+    try:
+        return _parse(text, **options)
+    except OverflowError:
+        # A duration or an interval endpoint that cannot be represented
+        raise ParserError(f"Unable to parse string [{text}]: value out of range")
 
 
 def _parse(
